@@ -305,6 +305,8 @@ def main(argv):
             inconclusive.append("must-observe %s: %d < %d" % (name, got, need))
     if not summaries:
         inconclusive.append("no shard produced a summary")
+    elif not m["samples"]:
+        inconclusive.append("no sample case recorded (evidence would be invalid)")
 
     distinct = merge_distinct(bindir, m["distinct_files"])
     wall = time.time() - t0
